@@ -45,7 +45,12 @@ PART = {
             {"name": "daemonnet", "pkg": P, "run": "^TestVF_C15$", "timeout": "30m", "timeout_thorough": "90m"},
         ],
         "rule": "3 real daemons (file key stores, bolt, loopback gRPC+HTTP, real clock, umask 022, debug logs captured) run a first DKG, rounds, "
-                "a reshare, status / chain-info / public / HTTP requests, a node restart with sync, BackupDatabase and a hostile-request subset; "
+                "a reshare, status / chain-info / public / HTTP requests, a node restart with sync, BackupDatabase, a hostile-request subset, and a family of refused loads (13 corruptions of the key folder: "
+                "public signature corrupted/absent/foreign, public identity replaced, scheme name changed in public/private/both, group without "
+                "the node, share value/commit corrupted, private key truncated/corrupted, canary) each through daemon start (LoadBeaconsFromDisk), "
+                "control-API LoadBeacon on a running daemon (+ status/identity/group requests naming it) and key.SelfSignAll, with returned errors, "
+                "gRPC error strings, log sinks, stdout and stderr scanned for the scalars of the ORIGINAL files; a syscall-level (strace) replay of "
+                "key/share/dkg.db writes; "
                 "every node's secret scalars (long-term key, share of every finished epoch) are searched in raw, reversed, hex, base64 (3 "
                 "alignments), decimal and Go byte-slice encodings in every protobuf message seen by client interceptors, HTTP bodies+headers, the "
                 "backup file, the log sink and gRPC error strings; files containing a secret must be owner-only at every key.save/dkgstore hook "
